@@ -1,6 +1,6 @@
 // C12: every line of every input file reaches the query exactly once, in order.
 // Byte contents x splits into 1..4 files are run through the real FileExecutor with a table that admits
-// every line; printed records and `total_lines` are compared with the Lean model (`lines`, `linecount`
+// every line; printed records and `total_lines` are compared with the Lean model (`lines`, `linecount`, `joinlines`
 // cases) and with the property itself (independent split; multi-file == concatenation; no silent drop).
 use std::fs::File;
 use std::path::PathBuf;
@@ -256,6 +256,13 @@ pub fn check_join(run: &mut Run, main: &[u8], joined: &[u8]) {
     let j = spec_lines(joined);
     run.oracle_checks += 1;
     run.count("join-loader-checked");
+    {
+        let recs: Vec<String> = o.printed.iter().filter(|p| !p.is_empty()).cloned().collect();
+        let kind = |v: &Vec<Option<Vec<u8>>>| if v.iter().all(|l| l.is_some()) { "valid" } else { "invalid" };
+        run.case(format!("joinlines {} {}", hex(main), hex(joined)),
+                 format!("{} {}{}", o.status.word(), o.total_lines, show_records(&recs, "t.x")),
+                 format!("join/main-{}/joined-{}/m{}/j{}/out{}", kind(&m), kind(&j), bucket(m.len()), bucket(j.len()), bucket(recs.len())));
+    }
     if let Status::Panic(e) = &o.status { run.fail(desc, "reader-panic", e.clone()); return; }
     let j_valid = j.iter().all(|l| l.is_some());
     let m_valid = m.iter().all(|l| l.is_some());
